@@ -35,19 +35,19 @@ def _deadline(args, quick, thorough, tier):
 @check("C03")
 def c03(tier, args):
     scs = _filter(scenarios.c03(tier), args)
-    return engine_a.run_scenarios("C03", tier, scs, _deadline(args, 600, 3000, tier))
+    return engine_a.run_scenarios("C03", tier, scs, _deadline(args, 900, 6000, tier))
 
 
 @check("C04")
 def c04(tier, args):
     scs = _filter(scenarios.c04(tier), args)
-    return engine_a.run_scenarios("C04", tier, scs, _deadline(args, 600, 3000, tier))
+    return engine_a.run_scenarios("C04", tier, scs, _deadline(args, 900, 6000, tier))
 
 
 @check("C09")
 def c09(tier, args):
     scs = _filter(scenarios.c09(tier), args)
-    return engine_a.run_scenarios("C09", tier, scs, _deadline(args, 600, 3000, tier))
+    return engine_a.run_scenarios("C09", tier, scs, _deadline(args, 900, 6000, tier))
 
 
 @check("C14")
@@ -57,7 +57,7 @@ def c14(tier, args):
     scs = _filter(scenarios.c14(tier), args)
     parts, labels = [], []
     if scs:
-        parts.append(engine_a.run_scenarios("C14", tier, scs, _deadline(args, 600, 3000, tier), finish=False))
+        parts.append(engine_a.run_scenarios("C14", tier, scs, _deadline(args, 900, 6000, tier), finish=False))
         labels.append("sched")
     # "additionally every allocation-failure point of C08 on the OLC index": after every faulted operation of every reachable
     # state the sweep must terminate and no lock word may be left set (engine B, fault mode, olc_db only)
@@ -93,14 +93,14 @@ QSBR_ASSUMPTIONS = [
 @check("C05")
 def c05(tier, args):
     scs = _filter(scenarios.qsbr("C05", tier), args)
-    return engine_a.run_scenarios("C05", tier, scs, _deadline(args, 600, 3000, tier), rule=QSBR_RULE,
+    return engine_a.run_scenarios("C05", tier, scs, _deadline(args, 900, 6000, tier), rule=QSBR_RULE,
                                   assumptions=QSBR_ASSUMPTIONS)
 
 
 @check("C06")
 def c06(tier, args):
     scs = _filter(scenarios.qsbr("C06", tier), args)
-    return engine_a.run_scenarios("C06", tier, scs, _deadline(args, 600, 3000, tier), rule=QSBR_RULE,
+    return engine_a.run_scenarios("C06", tier, scs, _deadline(args, 900, 6000, tier), rule=QSBR_RULE,
                                   assumptions=QSBR_ASSUMPTIONS)
 
 
@@ -108,7 +108,7 @@ def c06(tier, args):
 def c07(tier, args):
     scs = _filter(scenarios.lock(tier), args)
     return engine_a.run_scenarios(
-        "C07", tier, scs, _deadline(args, 600, 3000, tier),
+        "C07", tier, scs, _deadline(args, 900, 6000, tier),
         rule="every interleaving (every atomic access of optimistic_lock and of the protected words a scheduling point) of 2 "
              "threads running one or two lock programs each (read section with and without intermediate check, write, "
              "write-and-obsolete, read-then-upgrade, rehydrate) on ONE real lock guarding two words: unbounded search made finite "
@@ -125,7 +125,7 @@ def c07(tier, args):
 def c13(tier, args):
     scs = _filter(scenarios.mutex(tier), args)
     return engine_a.run_scenarios(
-        "C13", tier, scs, _deadline(args, 600, 3000, tier),
+        "C13", tier, scs, _deadline(args, 900, 6000, tier),
         rule="every interleaving, without bound, of 2-3 plain threads running programs over {get, get-and-hold-the-handle, insert, "
              "remove, empty, clear, scan} on the real mutex_db; the scheduling points are the acquisition and release of the "
              "index mutex (pthread_mutex_lock/unlock defined in the runner), a requester of a held mutex is disabled until its "
@@ -146,7 +146,8 @@ def seqmc_crash(assertions):
         if rc == 45:
             return "C14"
         if rc == 43 or rc == -11 or rc == -7 or rc == -4:
-            return "C01"
+            # died inside the scan enumeration of an announced state: the scan contract; otherwise the point operations
+            return "C02" if " SCAN" in hist else "C01"
         if rc == -6 or rc == 134:
             return "C16" if assertions else "C01"
         return None
@@ -210,7 +211,21 @@ def c01(tier, args):
     if args.only:
         us = [u for u in us if args.only in u["id"]]
         deep = [u for u in deep if args.only in u["id"]]
-    return _seqmc("C01", tier, "asan", ["--scans", "1"], us, deep)
+    import time as _time
+    t0 = _time.time()
+    part_b = _seqmc("C01", tier, "asan", ["--scans", "1"], us, deep, finish=False) if (us or deep) else None
+    # the OLC clause about views ("at least until the caller's next quiescent state") needs a second registered thread, or
+    # reclamation is immediate by design: sequential programs of one worker next to an idle registered thread, engine A.
+    # In this family a view that changes or is freed before the worker's quiescent state IS that clause, so the runner's
+    # C04 verdicts are reported under C01.
+    scs = _filter(scenarios.c01_views(tier), args)
+    if not scs:
+        return merge_and_finish("C01", tier, t0, [part_b], ["seqmc"])
+    part_a = engine_a.run_scenarios("C01", tier, scs, _deadline(args, 300, 900, tier), finish=False, report_as={"C04": "C01"})
+    lab = "sched: one worker holding value views across its own removals / restructurings, next to an idle registered thread"
+    if part_b is None:
+        return merge_and_finish("C01", tier, t0, [part_a], [lab])
+    return merge_and_finish("C01", tier, t0, [part_b, part_a], ["seqmc", lab])
 
 
 @check("C02")
@@ -352,7 +367,7 @@ def c16(tier, args):
     cov = dict(cov_b)
     rep = rep_b
     if scs:
-        rep_a, cov_a, ass_a = engine_a.run_scenarios("C16", tier, scs, _deadline(args, 600, 3000, tier), finish=False,
+        rep_a, cov_a, ass_a = engine_a.run_scenarios("C16", tier, scs, _deadline(args, 900, 6000, tier), finish=False,
                                                      binary=engine_a.olc_debug_binary(), fatal_property="C16")
         for k in ("states", "transitions", "traces_validated_against_impl", "evaluations", "distinct_nontrivial"):
             cov[k] = cov_b.get(k, 0) + cov_a.get(k, 0)
@@ -388,7 +403,7 @@ def c10(tier, args):
     scs = _filter(scs, args)
     if not scs:
         return merge_and_finish("C10", tier, t0, [part_b], ["seqmc"])
-    part_a = engine_a.run_scenarios("C10", tier, scs, _deadline(args, 600, 3000, tier), finish=False)
+    part_a = engine_a.run_scenarios("C10", tier, scs, _deadline(args, 900, 6000, tier), finish=False)
     return merge_and_finish("C10", tier, t0, [part_b, part_a], ["seqmc", "sched: writer/writer scenarios on the real olc_db"])
 
 
@@ -483,10 +498,14 @@ def replay(path):
         print(se[-3000:])
         if res is not None:
             for v in res["violations"]:
-                print("VIOLATION property=%s replay=%s" % (v["property"], path))
+                rp = payload.get("reported_property") if v["property"] == payload.get("property") else None
+                print("VIOLATION property=%s replay=%s" % (rp or v["property"], path))
                 print("  ", v["what"])
             return 1 if res["violations"] else 0
-        return 1 if rc in (40, 41, 43, 44) or (isinstance(rc, int) and rc < 0) else 3
+        if rc in (40, 41, 43, 44) or (isinstance(rc, int) and rc < 0):
+            print("VIOLATION property=%s replay=%s" % (payload.get("reported_property") or payload.get("property"), path))
+            return 1
+        return 3
     if eng in ("enum", "wrap", "seqmc"):
         b = build(**payload["build_spec"]) if payload.get("build_spec") else codec_binary()
         r = subprocess.run([b] + payload["args"] + ["--replay-arg", payload["replay_arg"], "--out", "/dev/stdout"],
